@@ -2,7 +2,7 @@
 typedpy/serialization/serialization.py
 
     _is_mapper_simple(cls)   _is_optional_anyof(field)   _extract_non_nonefield_from_optional(field)
-    _structure_simplicity_level(cls)   _get_enum_mapping(cls)
+    _leading_option(field)   _structure_simplicity_level(cls)   _enum_lookup(field)   _get_enum_mapping(cls)
 
 into Gallina over Base/PyOps.v, PyOps2.v, PyObj.v and PyOpsFields.v, rewritten on every run from the working
 tree of core.REPO into coq/theories/Gen/TrustedSrc.v.  Ser/TrustedSrcProofs.v proves each generated function
@@ -41,8 +41,8 @@ from harness.genmods.py2v import Unsupported, KNOWN_CLASSES, EXN
 PKG = os.path.join(core.REPO, "typedpy")
 MODULE = "typedpy.serialization.serialization"
 FIELD_ROOT = ("typedpy.structures.structures", "Field")
-TARGETS = ["_is_mapper_simple", "_is_optional_anyof", "_extract_non_nonefield_from_optional",
-           "_structure_simplicity_level", "_get_enum_mapping"]
+TARGETS = ["_is_mapper_simple", "_is_optional_anyof", "_extract_non_nonefield_from_optional", "_leading_option",
+           "_structure_simplicity_level", "_enum_lookup", "_get_enum_mapping"]
 RESERVED = {"h", "rec", "l", "fuel", "k_after", "tt", "fix", "in", "let", "match", "end", "fun", "if", "then",
             "else", "return", "as", "at", "with", "forall", "exists", "Type", "Set", "Prop", "c", "r", "b", "o"}
 TRANSPARENT_DECORATORS = {"lru_cache"}
